@@ -15,6 +15,10 @@ let op_of (tok : string) : op =
       match String.rindex_opt tok ':' with
       | Some i -> OpSkip (name_of (String.sub tok 0 i), String.sub tok (i + 1) (String.length tok - i - 1) = "on")
       | None -> failwith ("op " ^ tok))
+(* "move" (move construction), "move=" (move assignment onto freshly built steps where the class has one), "move=!" (onto
+   steps that were told to skip everything): the step objects are replaced by the objects moved from them; the model
+   has one move operation (C13_Life.LMove), the target's previous content plays no role *)
+let lop_of (tok : string) : lop = match tok with "move" | "move=" | "move=!" -> LMove | _ -> LOp (op_of tok)
 let b01 b = if b then "1" else "0"
 let flags_str (f : flags) =
   Printf.sprintf "P=%s,S=%s,E=%s" (b01 f.f_pred) (b01 f.f_state) (match f.f_exo with Some e -> b01 e | None -> "-")
@@ -63,8 +67,11 @@ let () =
         done;
         Caseio.out_word "enum" (List.rev !res)
       end else begin
-        let ops = List.map op_of (if Caseio.has c "ops" then Caseio.get_word c "ops" else []) in
-        Caseio.out_word "trace" (("init," ^ flags_str (init have)) :: List.map (obs_str (Caseio.meta c "sensor" <> "sim")) (c13_run k have ops))
+        let ops = List.map lop_of (if Caseio.has c "ops" then Caseio.get_word c "ops" else []) in
+        let stream = Caseio.meta c "sensor" <> "sim" in
+        Caseio.out_word "trace"
+          (("init," ^ flags_str (init have))
+           :: List.map (function LObs o -> obs_str stream o | LMoved f -> "moved," ^ flags_str f) (c13_run_life k have ops))
       end;
       Caseio.out_end ())
     cases
